@@ -7,6 +7,7 @@ package main
 import (
 	"bytes"
 	"fmt"
+	"runtime/debug"
 	"strings"
 	"sync"
 	"time"
@@ -164,11 +165,21 @@ func allLists(n, maxLen int) [][]int {
 func main() {
 	r = vcommon.Start("C22", "exploration")
 	th := r.Thorough()
+	debug.SetGCPercent(400) // hundreds of thousands of short-lived streams; the live heap stays small
+	t0 := time.Now()
 
 	nH264 := runNALU(h264Codec(), th)
 	nH265 := runNALU(h265Codec(), th)
 	nM4 := runMPEG4Video(th)
 	nAV1 := runAV1(th)
+	baseDone := time.Since(t0)
+
+	// consumer dimension: kind of publisher x who consumes while the units are written (consumers.go)
+	nC264 := runConsumerDimension(naluConsumerCodec(h264Codec()), th)
+	nC265 := runConsumerDimension(naluConsumerCodec(h265Codec()), th)
+	nCM4 := runConsumerDimension(m4ConsumerCodec(), th)
+	closeRTSP()
+	consDone := time.Since(t0) - baseDone
 
 	for k := range locDist {
 		r.Distinct(k)
@@ -180,10 +191,21 @@ func main() {
 	r.Set("units_with_parameters_prepended", prefixed)
 	r.Set("units_changing_description", updates)
 	r.Set("units_becoming_empty", emptied)
-	r.Rule = ruleText(th)
+	r.Set("consumer_dimension_h264_sequences_x_publishers", nC264)
+	r.Set("consumer_dimension_h265_sequences_x_publishers", nC265)
+	r.Set("consumer_dimension_mpeg4video_sequences_x_publishers", nCM4)
+	r.Set("consumer_dimension_real_streams", consRuns)
+	r.Set("consumer_dimension_rtp_packets_written", consPacketsWritten)
+	r.Set("consumer_dimension_plans_description_changed_while_no_reader", consLearnedUnseen)
+	r.Set("consumer_dimension_key_frames_delivered_to_late_reader_with_parameters_sent_before_attach", consLateKeyFrames)
+	r.Set("consumer_dimension_rtsp_describes", consDescribes)
+	r.Set("seconds_base_enumeration", int64(baseDone.Seconds()))
+	r.Set("seconds_consumer_dimension", int64(consDone.Seconds()))
+	r.Rule = ruleText(th) + consumerRuleText(th)
 	r.Exhaustive = true
 	r.Assumptions = []string{
-		"non-RTP publisher (UseRTPPackets=false), one format per stream, one reader, sequential writes; RTP publishers reach the same updater/remuxer through rtpDecoder (not enumerated here)",
+		"base enumeration: non-RTP publisher (UseRTPPackets=false), one format per stream, one reader attached from the start, sequential writes",
+		"consumer dimension: RTP publishers write well-formed, in-order packets of at most a few dozen bytes (no fragmentation units, no loss, no re-encoding because of oversized packets, H.264 packetization-mode 1); the Reader attaches between access units, never between the packets of one; the RTSP side is the real ServerStream of a started gortsplib.Server without any RTSP session reading from it, observed through DESCRIBE; expected DESCRIBE answer = gortsplib's own SDP marshal/unmarshal of the reference parameters; always-available streams are not enumerated",
 		"NAL unit contents are 2-byte tokens (one 1-byte NALU); parameter sets are told apart by type only, as the property does",
 		"don't-cares: parameter sets placed after the key frame NALU inside the same unit may or may not be the ones prepended; when only part of the parameter sets is known, prepending nothing or the known ones are both accepted; a unit that becomes empty may be delivered empty or not at all",
 		"aliasing over time is judged by content (retained reference vs deep-copied snapshot; receive buffer vs what the publisher wrote): an in-place write of identical bytes is invisible; retained references stand for a late reader or one that keeps units",
